@@ -17,10 +17,14 @@ CHECKS = [
        'Trusted: the MIR text parser/interpreter and the container/iterator/Url/str models (listed in the evidence, validated every run against the real crate on random concrete worlds and on every solver model); the representation invariant of DESIGN.md 3; z3. Outside: more specifiers/dependencies than the bound, builder-produced graphs as such, error ordering between roots.', 'DESIGN.md 5 C02'),
  check('C06', 'Bounded model checking of the version selection function: JsrPackageVersionResolver::resolve_version, packages::resolve_version, the date filters and get_for_package executed from MIR over EVERY version world with <=4 (quick) / <=6 (thorough) totally ordered versions, arbitrary registry subset / yanked flags / creation dates / cached set / cutoff, an arbitrary matches predicate (generalises over semver requirements), an arbitrary sequence of already-selected versions and an arbitrary HashMap iteration order; the solver decides equality with the four-tier rule of the statement, the not-found payload, and independence from iteration order. One recorded boundary finding (version created exactly at the cutoff).',
        'Trusted: interpreter + models (Version as ranked atom, VersionReq::matches as arbitrary predicate, chrono instants as 16-bit integers, HashMap iteration as symbolic permutation), z3. Outside: graph-level bookkeeping (resolve_jsr_nv, lockfile seeding, tag rejection), real semver parsing, more versions than the bound.', 'DESIGN.md 5 C06'),
+ check('C08', 'PARTIAL. Bounded model checking of the lookup and offset-arithmetic kernels only: for ALL 64-bit positions Position ordering is lexicographic and PositionRange::includes is the closed lexicographic interval test (mirsym on MIR and Kani on the compiled crate); Dependency::includes with <=2 (quick) / <=3 (thorough) imports plus the type resolution returns a range containing the position and returns nothing only when no range contains it; comment_source_to_position_range maps a match inside a comment to [comment_start+2+start-pad, comment_start+2+end+pad] through an arbitrary offset->position function. The main clause (which dependencies the swc visitor / regexes / JSDoc parsers report) is NOT covered.',
+       'Trusted: interpreter + models (SourcePos arithmetic as 64-bit addition, line_and_column_index as an uninterpreted function), Kani/CBMC for the scalar cross-check. Outside: the parser visitor, pragma regexes, the v1->v2 upgrader, serde.', 'DESIGN.md 5 C08', technique='bounded symbolic execution of rustc MIR (mirsym) with z3 over 64-bit positions; Kani/CBMC cross-check of the scalar kernels'),
  check('C14', 'Bounded model checking of resolve/get/contains/try_get/try_get_prefer_types/specifiers/resolve_dependency executed from MIR on every graph state (N<=3 quick, N<=4 thorough) and on redirect-only worlds up to 12 specifiers (chains crossing MAX_REDIRECTS, free redirect maps up to N=6/7): termination (unwinding assertion), idempotence, and agreement with what the real walk reaches. Three recorded findings are excluded by signature and re-confirmed natively each run; one defect (specifiers() one-hop) was repaired by a fix: commit.',
        'Trusted: interpreter + models + invariant (as C02); the oracle "what a walk reaches" is itself checked against the real walk executed from MIR (cube walk_agreement). Outside: N beyond the bound.', 'DESIGN.md 5 C14'),
  check('C15', 'Bounded model checking of ModuleGraph::walk / ModuleEntryIterator::{new,next,analyze_module_deps,is_checkable,skip_previous_dependencies} executed from MIR on every graph state (N<=3, D<=1 quick; N<=4 or D<=2 thorough), every option cube and arbitrary root subsets: each specifier yielded at most once, yielded set = option-selected reachable set (independent fixpoint oracle), entry kinds and redirect targets, exhaustion, arbitrary skip sets.',
        'Trusted: interpreter + models + invariant (as C02). Outside: N/D beyond the bound; the errors() listing is covered through validate() in C02 (first error) rather than as a full multiset here.', 'DESIGN.md 5 C15'),
+ check('C20', 'PARTIAL. Kani/CBMC on the compiled crate: ModuleTextSource::try_get_original_bytes returns nothing or exactly the loader bytes for arbitrary stored bytes (<=4 quick, <=8 thorough) under the decoder contract for each decoded-kind marker, with pointer/UB checks on the unsafe Arc<str>->Arc<[u8]> reinterpretation. mirsym on MIR: JsModule/JsonModule::size = byte length of the stored text for every marker; new_source_with_text passes the header charset when given, else the detected one, and stores exactly the decoder text/kind or a Decode error. The decoder itself (deno_media_type/encoding_rs) and header parsing are NOT covered.',
+       'Trusted: Kani 0.68/CBMC 6.11, the decoder contract stated in the harness, interpreter + models for the two MIR kernels. Outside: charset detection, header parsing, the decoder.', 'DESIGN.md 5 C20', technique='Kani (CBMC) proof harnesses with unwinding assertions and cover witnesses; mirsym/z3 for the size and charset kernels', engine='kani+mirsym'),
  check('C17', 'Bounded model checking of prune_types executed from MIR on every All-kind graph state (N<=3 quick, N<=4 thorough): post-state reports CodeOnly, has no imports/type resolutions/@deno-types/types dependency/fast-check data, keeps exactly the code-reachable entries and redirects unchanged otherwise, has_node_specifier recomputed, and valid() gives the same verdict and first error before and after. Partial: equality with a second code-only BUILD is outside (needs the async builder). One recorded finding excluded by signature.',
        'Trusted: interpreter + models + invariant. Outside: the builder; TypesOnly pre-states; N beyond the bound.', 'DESIGN.md 5 C17'),
  check('C18', 'Bounded model checking of segment() executed from MIR on every graph state of every kind and every choice of segment roots (N<=3 quick, N<=4 thorough): the segment contains exactly what its roots reach, a plain copy for subset roots, and resolve_dependency / try_get / validate executed on the segment and on the original agree for everything the segment contains. Partial: equality with a direct BUILD is outside. Two recorded findings excluded by signature.',
@@ -33,7 +37,6 @@ NA = {
  'C04': 'interleavings of future completions and hasher seeds inside the builder: Kani has no concurrency model and the completion order lives inside futures queues (DESIGN.md 5 C04).',
  'C05': 'per-load-call checksum obligations live in the coroutine-lowered try_load and builder code; not encodable within reach (tier-2 attempt not built).',
  'C07': 'Url::join/format!/semver parsing and builder bookkeeping: string-processing loops whose trip count grows with input (a concrete Url::parse alone costs 20 s in Kani).',
- 'C08': 'not built yet in this round (planned: position/range kernels)',
  'C09': 'closure of fast-check output over all programs needs the swc pipeline; lattice kernel not built yet.',
  'C10': 'quantifies over programs transformed by ~50 match arms over the swc AST; no encodable kernel carries the property.',
  'C11': 'relational property over programs through the swc transform; no encodable kernel.',
@@ -41,7 +44,6 @@ NA = {
  'C13': 'serde-derive (de)serialisers over serde_json text and a relation between two registry builds: symbolic strings through serde_json are out of reach.',
  'C16': 'symbol tables are built from swc ASTs with self-referential boxes; no encodable kernel.',
  'C19': 'histories of build/reload through the async builder.',
- 'C20': 'not built yet in this round (planned: Kani harness on try_get_original_bytes)',
 }
 claimed = {c['property_id'] for c in CHECKS}
 m = {
@@ -49,7 +51,7 @@ m = {
  'setup_cmd': './setup.sh',
  'hooks': {'guard': 'deno_graph_verif', 'enable': 'RUSTFLAGS="--cfg deno_graph_verif" (set by the checks when they build the native replay binary /verif/replay; the MIR dump does not need the hooks)',
            'baseline_off_cmd': 'cd /repo && cargo test --workspace --no-fail-fast --offline', 'source_commits': hook_commits, 'add_only': True},
- 'engines': [{'name': 'mirsym', 'path': 'mirsym/', 'serves_properties': sorted(claimed), 'kind_free_text': 'Python + z3 bounded symbolic executor over `cargo +nightly rustc -- -Zunpretty=mir` of /repo (regenerated every run), guarded single store, layered unrolling with unwinding assertions, container/iterator models, native replay of every model'}],
+ 'engines': [{'name': 'kani', 'path': 'kani/', 'serves_properties': ['C08', 'C20'], 'kind_free_text': 'Kani 0.68 harness crate with a path dependency on /repo (default-features = false); failing harnesses are replayed with concrete playback natively'}, {'name': 'mirsym', 'path': 'mirsym/', 'serves_properties': sorted(claimed), 'kind_free_text': 'Python + z3 bounded symbolic executor over `cargo +nightly rustc -- -Zunpretty=mir` of /repo (regenerated every run), guarded single store, layered unrolling with unwinding assertions, container/iterator models, native replay of every model'}],
  'checks': CHECKS,
  'not_applicable': [{'property_id': k, 'reason': v} for k, v in sorted(NA.items()) if k not in claimed],
  'notes': 'Exit codes of ./check: 0 = every query unsat (known findings printed as KNOWN-FINDING lines), 1 = natively replayed violation (VIOLATION line), 2 = inconclusive (timeout, unsupported construct, model/real mismatch). known_findings.jsonl lists recorded defects by structural signature; fixed: lines suppress nothing.',
